@@ -21,9 +21,14 @@ for d in sorted(glob.glob(os.path.join(VERIF, "seeded", "S*"))):
     subprocess.run(["git", "-C", "/repo", "apply", os.path.join(d, "patch.diff")], check=True)
     t0 = time.time()
     try:
-        p = subprocess.run(["./check", meta["property"], "--tier", "quick"], cwd=VERIF, capture_output=True, text=True)
+        tier = meta.get("tier", "quick")   # a change that only the thorough tier reports says so in its meta.json
+        if tier != "quick" and os.environ.get("SWEEP_SKIP_THOROUGH"):
+            print(sid, "skipped (needs the thorough tier)")
+            continue
+        p = subprocess.run(["./check", meta["property"], "--tier", tier], cwd=VERIF, capture_output=True, text=True)
     finally:
         subprocess.run(["git", "-C", "/repo", "checkout", "--", "."], check=True)
+        subprocess.run(["git", "-C", "/repo", "clean", "-fdq", "--", "impl", "src", "tests"], check=True)
     viol = [l for l in p.stdout.split("\n") if l.startswith("VIOLATION")]
     whats = []
     for l in viol[:2]:
@@ -34,7 +39,7 @@ for d in sorted(glob.glob(os.path.join(VERIF, "seeded", "S*"))):
                           "requests_or_items": len(r["sched"]["requests"]) if "sched" in r else (len(r["items"]) if "items" in r else None)})
         except Exception as e:
             whats.append({"replay": path, "error": str(e)})
-    res[sid] = {"property": meta["property"], "check": "./check %s --tier quick" % meta["property"], "rc": p.returncode, "detected": p.returncode == 1,
+    res[sid] = {"property": meta["property"], "check": "./check %s --tier %s" % (meta["property"], tier), "rc": p.returncode, "detected": p.returncode == 1,
                 "violation_lines": len(viol), "first_reports": whats, "wall_s": round(time.time() - t0, 1)}
     print(sid, meta["property"], "rc=%d" % p.returncode, "detected" if p.returncode == 1 else "MISSED", whats[0]["what"][:110] if whats and "what" in whats[0] else p.stderr[-300:])
     sys.stdout.flush()
